@@ -60,16 +60,16 @@ P = {
  "C14": ("Separation invariant over all operation histories of the heap model (built objects unaffected by any later operation on derived builders); every generated pipeline and dataset-schema history also drives the Lean heap model (op c14.run) and the wiring / schema dictionaries of all objects are compared after every operation; heap-shape abstraction and fingerprints in addition.",
          "The heap model's copy discipline is the code's only as far as the heap-shape probe measures it.",
          "Lean invariant proof on heap model + heap-shape / fingerprint histories on real objects", "5/C14"),
- "C15": ("Every crash prefix of the save sequence (any deletion order, clean or torn write) loads as fail/new/old, never a mixture — proved without side hypotheses; fault injection at the file-system primitives on the real save at every step compared with the model; ItemList pickling modelled with round-trip theorems and the pickled state compared; the other round trips measured.",
+ "C15": ("Generated datasets (out-of-order / string identifiers, every attribute layout) and pickled models of nine scorer kinds are compared observationally after the round trip. Every crash prefix of the save sequence (any deletion order, clean or torn write) loads as fail/new/old, never a mixture — proved without side hypotheses; fault injection at the file-system primitives on the real save at every step compared with the model; ItemList pickling modelled with round-trip theorems and the pickled state compared; the other round trips measured.",
          "Parquet/pickle codecs assumed injective with non-decoding truncations; a completed rmtree/write is durable.",
          "Lean theorem over all crash points + exhaustive fault injection on the real save", "5/C15"),
- "C16": ("Alignment invariant and selection/caching/alternate-vocabulary/copy-constructor/ranks-cache specs proved for the item-list model; differential over operation histories (incl. copies with replaced identifiers, numbers, vocabulary, fields).",
+ "C16": ("Alignment invariant and selection/caching/alternate-vocabulary/copy-constructor/ranks-cache specs proved for the item-list model; differential over operation histories (incl. copies with replaced identifiers, numbers, vocabulary, fields; representation round trips through Arrow, frames, pickle and torch; floating-point fields incl. all-NaN).",
          "NumPy/torch/Arrow conversions assumed.",
          "Lean invariant proof + differential on operation histories", "5/C16"),
  "C17": ("Read-back theorems for the scalar, list, dense-vector and sparse-vector layouts (incl. sliced Arrow inputs) for all subsets/orders; differential on add/read of attributes through every input and read form, selections and drop_null.",
          "Arrow list/struct constructors assumed.",
          "Lean theorems + differential on attribute add/read", "5/C17"),
- "C18": ("Guard logic (skip = identity), retrain = fresh, once-only training and distinct seeds proved on the training model; full-state comparison of retrained vs fresh real components is correspondence.",
+ "C18": ("Guard logic (skip = identity), retrain = fresh, once-only training and distinct seeds proved on the training model, also at pipeline level (pipeTrain: skip is the identity whatever the seed, retrain = fresh, untrainable components untouched); full-state comparison of retrained vs fresh real components and repeated pipeline trainings against the model (op c18.pipe) is correspondence.",
          "The model knows learned attributes by name only; state comparison excludes timers.",
          "Lean theorems on train guard/loop + state-snapshot differential on real components", "5/C18"),
  "C19": ("PARTIAL (distribution): validity (subset, nodup, length, order), weight normalisation, run-time n precedence proved for all random inputs; the analytic core of the first-position odds (exponential clocks: w/W) proved with Mathlib, the link to NumPy's draws assumed; exact ranking predicted from scripted uniforms; first-position odds tested statistically (thorough).",
@@ -80,10 +80,21 @@ P = {
          "Lean theorems + scripted-RNG differential", "5/C20"),
 }
 
+GUARDS = {
+ "C01": "MatrixRelationshipSet.row_items", "C02": "fallback_on_none (use_first_of)", "C03": "TopNRanker.__call__ and UserTrainingHistoryLookup.__call__",
+ "C07": "RunAnalysis.measure (test-data chain)", "C08": "BiasModel.compute_for_items (user-offset chain)", "C09": "UserKNNScorer.__call__ (self-similarity guard)",
+ "C10": "ALSBase.__call__ (user number, fold-in guard) and the bias chain", "C11": "DerivingRNG.__call__", "C18": "Pipeline.train (seed classification, per-component options)",
+ "C19": "the list-length logic of StochasticTopNRanker, SoftmaxRanker and RandomSelector",
+}
+
 def main():
     checks = []
     for pid in sorted(P):
         text, note, tech, ref = P[pid]
+        if pid in GUARDS:
+            text += (f" The decision logic of {GUARDS[pid]} is re-translated from the source into Lean on every run (translate/py2lean_guards.py → LK/Generated/Guards{pid}.lean) "
+                     f"and proved to be the model's (LK/Proofs/Guards{pid}.lean); a broken obligation triggers the failing-input search.")
+            tech += " + per-run translation of decision logic with proof obligations"
         checks.append({
             "property_id": pid,
             "quick_cmd": f"./check {pid} --tier quick",
